@@ -55,6 +55,30 @@ def run_shard(spec, res):
         nlive = 1
         pairs = 0
         try:
+            if al.nvars >= 2 and rng.random() < 0.35:
+                # directed opening: independent constraints, a query spanning them that does not exhaust anything
+                # (solvers that split by variable build a combined solver for it), a branch, a constraint connecting
+                # the variables on one side, the same variable set asked about on the other side
+                x_, y_ = al.v(0), al.v(1)
+                sm = ["add", x_, y_]
+                M = (1 << al.w) - 1
+                run.step({"op": "add", "s": 0, "cons": [["ult", x_, ["bvv", rng.randrange(2, M + 1), al.w]]]})
+                run.step({"op": "add", "s": 0, "cons": [["ult", y_, ["bvv", rng.randrange(2, M + 1), al.w]]]})
+                for _ in range(rng.choice([1, 2])):
+                    run.step(rng.choice([
+                        {"op": "solution", "s": 0, "e": sm, "v": rng.randrange(0, 4), "extra": []},
+                        {"op": "satisfiable", "s": 0, "extra": [["eq", sm, ["bvv", rng.randrange(0, 4), al.w]]]},
+                        {"op": "eval", "s": 0, "e": sm, "n": 1, "extra": []},
+                        {"op": "is_true", "s": 0, "e": ["eq", sm, ["bvv", rng.getrandbits(al.w), al.w]], "extra": []},
+                    ]))
+                run.step({"op": "branch", "s": 0})
+                nlive = len(run.live)
+                a_ = rng.randrange(2)
+                run.step({"op": "add", "s": a_, "cons": [["eq", sm, ["bvv", rng.randrange(0, 4), al.w]]]})
+                for st_ in ({"op": "eval", "e": sm, "n": 70}, {"op": "max", "e": sm, "signed": False}, {"op": "solution", "e": x_, "v": 0}, {"op": "satisfiable"}, {"op": "eval", "e": x_, "n": 70}):
+                    run.step({**st_, "s": 1 - a_, "extra": []})
+                    run.step({**st_, "s": a_, "extra": []})
+                res.count("directed_openings")
             for step_i in range(rng.choice([8, 14, 22])):
                 k = rng.random()
                 s = rng.randrange(nlive)
